@@ -145,6 +145,7 @@ def cases(ctx):
         g = HostGen(rng, max_depth=rng.choice([2, 3]), allow_regs=False)
         g.reg_operands = True
         g.p_cond_regmeas = 0.0
+        g.p_empty_body = rng.choice([0.0, 0.1, 0.3])      # operations whose body compiles to nothing are completed operations too
         k = rng.choice([1, 2, 3, 4, 5, 6, 7, 8])
         nops = rng.choice([120, 200, 300, 400]) if ctx.quick else rng.choice([300, 600, 1000, 2000])
         from vf.gen.host import Scope
